@@ -636,4 +636,143 @@ h_new_buff_null(int size)
     finish(s);
 }
 
+#ifdef VERIF_STREAMS
+#include <errno.h>
+#include "env_io.h"
+
+/* payload of plen symbolic non-NUL, non-newline bytes; newline at nlpos when 0 <= nlpos < plen */
+static void
+set_payload(int plen, int nlpos, int concrete)
+{
+    int i;
+
+    for (i = 0; i < plen; i++) {
+        unsigned char c = concrete ? (unsigned char) ('a' + i) : V_CHAR();
+
+        ASSUME(c != '\n');
+        verif_payload[i] = (i == nlpos) ? '\n' : c;
+    }
+    verif_payload_len = plen;
+    verif_payload_pos = 0;
+    verif_io_calls = 0;
+    verif_eof_flag = 0;
+    verif_io_active = 1;
+}
+
+/* new_from_fd: whole payload up to EOF, under a read schedule (k1..k3: 0 complete, j>0 short j,
+ * -1 EINTR) and an initial errno (0 or EINTR: a stale value must not matter) */
+static void
+h_from_fd(int plen, int k1, int k2, int k3, int stale_eintr)
+{
+    model m;
+    STR_T s;
+    int i;
+
+    set_payload(plen, -1, 0);
+    verif_sched[0] = k1; verif_sched[1] = k2; verif_sched[2] = k3;
+    verif_sched_n = 3;
+    errno = stale_eintr ? EINTR : 0;
+    m.len = plen;
+    for (i = 0; i < plen; i++) {
+        m.t[i] = verif_payload[i];
+    }
+    m.t[plen] = 0;
+    s = F(new_from_fd)(3);
+    verif_io_active = 0;
+    check_state(s, &m);
+    CHECK("from_fd consumed the whole input", verif_payload_pos == plen);
+    finish(s);
+}
+
+/* new_from_fp: one line (newline removed) or everything up to EOF */
+static void
+h_from_fp(int plen, int nlpos)
+{
+    model m;
+    STR_T s;
+    int i, want = (nlpos >= 0 && nlpos < plen) ? nlpos : plen;
+
+    /* line readers size their buffer with strlen()/strchr() of what they read: with symbolic bytes
+     * the allocation size is symbolic and the query does not finish (8 GB), so payloads longer
+     * than one chunk are concrete; the heap and everything else stay nondeterministic */
+    set_payload(plen, nlpos, plen > 1);
+    m.len = want;
+    for (i = 0; i < want; i++) {
+        m.t[i] = verif_payload[i];
+    }
+    m.t[want] = 0;
+    s = F(new_from_fp)(VERIF_FP);
+    verif_io_active = 0;
+    check_state(s, &m);
+    finish(s);
+}
+#endif
+
+#ifdef VERIF_FORMAT
+static int
+ref_ltoa(long v, unsigned char *out)
+{
+    unsigned char tmp[24];
+    unsigned long u = (v < 0) ? (0UL - (unsigned long) v) : (unsigned long) v;
+    int n = 0, k = 0;
+
+    do {
+        tmp[n++] = (unsigned char) ('0' + u % 10);
+        u /= 10;
+    } while (u);
+    if (v < 0) {
+        out[k++] = '-';
+    }
+    while (n > 0) {
+        out[k++] = tmp[--n];
+    }
+    out[k] = 0;
+    return k;
+}
+
+static void
+h_from_num(int digits)
+{
+    model m;
+    long lim = (digits == 1) ? 9 : ((digits == 2) ? 99 : ((digits == 3) ? 999 : 99999));
+    long v = V_RANGE(-lim, lim);
+    STR_T s = F(new_from_num)(v);
+
+    m.len = ref_ltoa(v, m.t);
+    check_state(s, &m);
+    finish(s);
+}
+
+/* sprintf onto a string in any state: mode 0 "" (string emptied), 1 "%s" of a text, 2 "a%db" */
+static void
+h_sprintf(int len, int slack, int mode, int alen)
+{
+    model m, r, am;
+    STR_T s = mk_state(len, slack, &m);
+    unsigned char *a;
+    int i, n;
+
+    if (mode == 0) {
+        CHECK("sprintf(\"\") succeeds", F(sprintf)(s, SPIF_CHARPTR("")) == TRUE);
+        r.len = 0;
+        r.t[0] = 0;
+    } else if (mode == 1) {
+        a = mk_cstr(alen, &am);
+        (void) F(sprintf)(s, SPIF_CHARPTR("%s"), a);
+        r = am;
+        free(a);
+    } else {
+        n = (int) V_RANGE(-99, 99);
+        CHECK("sprintf succeeds", F(sprintf)(s, SPIF_CHARPTR("a%db"), n) == TRUE);
+        r.t[0] = 'a';
+        i = 1 + ref_ltoa((long) n, r.t + 1);
+        r.t[i++] = 'b';
+        r.t[i] = 0;
+        r.len = i;
+    }
+    check_state(s, &r);
+    finish(s);
+}
+#endif
+
 #include VERIF_ENTRIES
